@@ -652,6 +652,38 @@ def run(chk):
             if not direct and not via:
                 chk.violation(r_lo, key, "%s appends to vectorData[%s] at line %d without testing !vectorLoaded[%s]: a vector that was loaded on its own before (get(), dates(), loadData({..})) gets every value a second time, so the series is twice as long as the number of time steps" % (f["q"], ix, n["l"], ix), f["file"], n["l"])
 
+    # ---- C10.pending: the writer's re-used buffer of pending ministeps and its live count
+    r_pe = chk.rule("C10.pending", "the summary writer collects ministeps in a buffer it re-uses (an element is claimed with buffer[count++], the count is reset to zero after a flush, the buffer is never shrunk): every traversal of the buffer visits exactly the live elements - an index loop from 0 while index < count - never the whole container (a range-for or begin()/end() also sees the ministeps of an earlier, larger batch and writes them again)", floor=2)
+    pairs = set()
+    sfns = [f for f in fx.fns if f.get("body") and f["file"].endswith("/Summary.cpp")]
+    for f in sfns:
+        for n in walk(f["body"]):
+            if n["k"] in ("Idx", "OpCall") and (n["k"] == "Idx" or n.get("op") == "[]"):
+                b_, i_ = [strip(x) for x in (n.get("c") or n.get("a"))][:2]
+                if b_.get("k") == "Mem" and strip(b_.get("b") or {"k": "This"}).get("k") == "This" and i_.get("k") == "Un" and "++" in (i_.get("op") or "") and strip(i_["c"][0]).get("k") == "Mem":
+                    pairs.add((b_["n"], strip(i_["c"][0])["n"]))
+    if len(pairs) != 1:
+        raise core.AnalysisBroken("Summary.cpp: the pending-ministep buffer (member[count++]) was not identified: %s" % sorted(pairs))
+    buf, cnt = list(pairs)[0]
+    for f in sfns:
+        for n in walk(f["body"]):
+            if n["k"] == "ForRange" and show(strip(n["range"])) == "this.%s" % buf:
+                chk.instance(r_pe, "%s:range@%d" % (f["q"].split("::")[-1], n["l"]), sample=dict(function=f["q"], traversal="range-for over the whole buffer"))
+                chk.violation(r_pe, "%s:range@%d" % (f["q"].split("::")[-1], n["l"]), "%s walks the whole buffer `%s` (range-for); only the first `%s` entries are live - the rest are ministeps of an earlier batch, which are written to the summary file a second time" % (f["q"], buf, cnt), f["file"], n["l"])
+            if n["k"] in ("MCall",) and n.get("m") in ("begin", "end", "cbegin", "cend", "rbegin", "rend") and show(strip(n.get("obj") or {})) == "this.%s" % buf:
+                chk.instance(r_pe, "%s:iter@%d" % (f["q"].split("::")[-1], n["l"]), sample=dict(function=f["q"], traversal=show(n)))
+                chk.violation(r_pe, "%s:iter@%d" % (f["q"].split("::")[-1], n["l"]), "%s takes %s: iterating the whole re-used buffer visits stale ministeps beyond the live count `%s`" % (f["q"], show(n), cnt), f["file"], n["l"])
+            if n["k"] == "For" and any(("this.%s[" % buf) in show(x) for x in walk(n["body"]) if x["k"] in ("Idx", "OpCall")):
+                iv = n["init"]["vars"][0]["n"] if n.get("init") and n["init"].get("k") == "Decl" else None
+                key = "%s:index@%d" % (f["q"].split("::")[-1], n["l"])
+                subs = {show(strip((x.get("c") or x.get("a"))[1])) for x in walk(n["body"]) if x["k"] in ("Idx", "OpCall") and (x["k"] == "Idx" or x.get("op") == "[]") and show(strip((x.get("c") or x.get("a"))[0])) == "this.%s" % buf}
+                ok = iv is not None and show(n["cond"]) == "(%s < this.%s)" % (iv, cnt) and subs == {iv} and show(n.get("inc")) in ("(++%s)" % iv, "(%s++)" % iv)
+                st0 = sy.Eval(lambda e: sy.S("n") if e.get("k") in ("Mem", "MCall") else None, set()).term(n["init"]["vars"][0]["init"], {}) if iv else None
+                ok = ok and st0 == sy.I(0)
+                chk.instance(r_pe, key, sample=dict(function=f["q"], loop="for (%s = %s; %s; %s)" % (iv, show(n["init"]["vars"][0].get("init")) if iv else "?", show(n["cond"]), show(n.get("inc"))), subscripts=sorted(subs)))
+                if not ok:
+                    chk.violation(r_pe, key, "%s traverses `%s` with for (%s; %s; %s) and subscripts %s; the live elements are [0, %s)" % (f["q"], buf, show(n.get("init"))[:60], show(n["cond"]), show(n.get("inc")), sorted(subs), cnt), f["file"], n["l"])
+
     # ---- C10.stale: a derived ESMRY file of an earlier run never survives the start of a new run
     r_st = chk.rule("C10.stale", "ESmry::make_esmry_file refuses to replace an existing <CASE>.ESMRY (returns false when the file exists); therefore the summary writer removes an existing <CASE>.ESMRY when it is constructed, whatever its options: the removal is guarded by the existence of that file only - otherwise the readers are served the previous run's series", floor=2)
     mk = fx.fn1("Opm::EclIO::ESmry::make_esmry_file")
